@@ -110,6 +110,10 @@ Definition convert_taglist (tl : taglist) : dict :=
 
 Inductive bmode : Type := BStream | BDownload | BTimeshift | BLive.
 
+(* set_uri(uri, live_stream, download) *)
+Record uflags : Type := mkF { f_download : bool; f_live : bool }.
+Definition plain : uflags := mkF false false.
+
 Inductive input : Type :=
 (* bus messages (through _Handler.on_message) *)
 | StateChanged (from_playbin : bool) (o n p : gst)  (* msg.src == playbin?; old, new, pending *)
@@ -118,17 +122,28 @@ Inductive input : Type :=
 | StreamStart
 | Eos
 | Error
-| Other                                              (* WARNING, ASYNC_DONE, ELEMENT, ...: ignored *)
+| Warning                                            (* on_warning: logs only *)
+| AsyncDone                                          (* on_async_done: logs only *)
+| Element (missing_plugin : bool)                    (* ELEMENT; on_missing_plugin logs only *)
+| Other                                              (* any other message type: no branch *)
 (* pad event (through _Handler.on_pad_event) *)
 | Segment (pos : Z)                                  (* segment.position, nanoseconds *)
 (* control calls on Audio; ok = the pipeline did not answer FAILURE / the seek succeeded *)
 | PrepareChange (ok : bool)
-| SetUri (u : Z) (download : bool)
+| SetUri (u : Z) (fl : uflags)
 | Start (ok : bool)
 | Pause (ok : bool)
 | Stop (ok : bool)
 | SetPosition (ms : Z) (ok : bool)
-| GetCurrentTags.
+| GetCurrentTags
+| GetPosition (ok : bool) (pos : Z)                  (* playbin.query_position answers (ok, pos) *)
+| SetAtfCallback (present : bool)                    (* set_about_to_finish_callback(cb / None) *)
+| SetSourceCallback (present : bool)                 (* set_source_setup_callback(cb / None) *)
+(* playbin signals *)
+| AboutToFinish (in_actor_thread : bool) (next : option (Z * uflags))
+      (* about-to-finish; `next` = the set_uri the registered callback performs, if any *)
+| SourceSetup (has_factory has_is_live has_proxy_prop proxy_host : bool).
+      (* source-setup; the source element's capabilities and config["proxy"]["hostname"] set? *)
 
 (* ---------------------------------------------------------------- outputs *)
 
@@ -144,11 +159,15 @@ Inductive cmd : Type :=                         (* what the pipeline is asked to
 | CSetState (s : gst)                           (* playbin.set_state *)
 | CFlags (f : Z)                                (* playbin.set_property("flags", f) *)
 | CUri (u : Z)                                  (* playbin.set_property("uri", u) *)
-| CSeek (clock : Z).                            (* queue.seek_simple(TIME, FLUSH, clock) *)
+| CSeek (clock : Z)                             (* queue.seek_simple(TIME, FLUSH, clock) *)
+| CCallAtf                                      (* the about-to-finish callback is run *)
+| CCallSource                                   (* the source-setup callback is run *)
+| CSetLive                                      (* source.set_live(True) *)
+| CProxy.                                       (* source proxy / proxy-id / proxy-pw set *)
 
-Inductive exn : Type := KeyError.
+Inductive exn : Type := KeyError | AudioException.
 
-Inductive retv : Type := RNone | RBool (b : bool) | RTags (d : dict).
+Inductive retv : Type := RNone | RBool (b : bool) | RTags (d : dict) | RPos (ms : Z).
 
 Record out : Type := mkOut { o_ret : res exn retv; o_evs : list event; o_cmds : list cmd }.
 
@@ -156,25 +175,29 @@ Definition quiet : out := mkOut (Ok RNone) [] [].
 
 (* ---------------------------------------------------------------- world *)
 
+(* attributes outside the property's anchors: _live_stream and the two callbacks *)
+Record aux : Type := mkA { live : bool; atf_cb : bool; src_cb : bool }.
+
 Record world : Type := mkW {
   st : pstate;
   target : gst;
   buffering : bool;
   tags : dict;
   pending_tags : option dict;
-  pending_uri : option Z
+  pending_uri : option Z;
+  cfg : aux
 }.
 
-Definition init : world := mkW Stopped NULL false [] None None.
+Definition init : world := mkW Stopped NULL false [] None None (mkA false false false).
 
 Definition with_st (w : world) (s : pstate) : world :=
-  mkW s (target w) (buffering w) (tags w) (pending_tags w) (pending_uri w).
+  mkW s (target w) (buffering w) (tags w) (pending_tags w) (pending_uri w) (cfg w).
 Definition with_buffering (w : world) (b : bool) : world :=
-  mkW (st w) (target w) b (tags w) (pending_tags w) (pending_uri w).
+  mkW (st w) (target w) b (tags w) (pending_tags w) (pending_uri w) (cfg w).
 Definition with_tags (w : world) (t : dict) : world :=
-  mkW (st w) (target w) (buffering w) t (pending_tags w) (pending_uri w).
+  mkW (st w) (target w) (buffering w) t (pending_tags w) (pending_uri w) (cfg w).
 Definition with_pending_tags (w : world) (p : option dict) : world :=
-  mkW (st w) (target w) (buffering w) (tags w) p (pending_uri w).
+  mkW (st w) (target w) (buffering w) (tags w) p (pending_uri w) (cfg w).
 
 (* ---------------------------------------------------------------- handlers *)
 
@@ -244,7 +267,7 @@ Definition on_tag (w : world) (tl : taglist) : world * out :=
 (* _Handler.on_stream_start (the _pending_metadata branch is dead code: nothing sets it) *)
 Definition on_stream_start (w : world) : world * out :=
   let t := match pending_tags w with Some t => t | None => [] end in   (* tags or {} *)
-  (mkW (st w) (target w) (buffering w) t None (pending_uri w),
+  (mkW (st w) (target w) (buffering w) t None (pending_uri w) (cfg w),
    mkOut (Ok RNone)
          (EvStream (pending_uri w) :: match t with [] => [] | _ => [EvTags t] end)
          []).
@@ -252,12 +275,43 @@ Definition on_stream_start (w : world) : world * out :=
 (* Audio._set_state *)
 Definition set_state (w : world) (s : gst) (ok : bool) : world * out :=
   (mkW (st w) s (if rank s <? rank PAUSED then false else buffering w)
-       (tags w) (pending_tags w) (pending_uri w),
+       (tags w) (pending_tags w) (pending_uri w) (cfg w),
    mkOut (Ok (RBool ok)) [] [CSetState s]).
 
 Definition FLAG_AUDIO : Z := 2.
 Definition FLAG_DOWNLOAD : Z := 128.
 Definition MSECOND : Z := 1000000.
+
+Definition with_cfg (w : world) (a : aux) : world :=
+  mkW (st w) (target w) (buffering w) (tags w) (pending_tags w) (pending_uri w) a.
+
+(* Audio.set_uri (the mixer save/restore around it is in Mixer.v) *)
+Definition set_uri (w : world) (u : Z) (fl : uflags) : world * out :=
+  (mkW (st w) (target w) (buffering w) (tags w) (Some []) (Some u)
+       (mkA (f_live fl) (atf_cb (cfg w)) (src_cb (cfg w))),
+   mkOut (Ok RNone) []
+         [CFlags (if f_download fl then FLAG_AUDIO + FLAG_DOWNLOAD else FLAG_AUDIO); CUri u]).
+
+(* Audio._on_about_to_finish: refuses to run inside the actor thread (the callback blocks on
+   the actor: deadlock), otherwise runs the registered callback, which - by the documented
+   contract - calls set_uri for the next track, or does nothing *)
+Definition on_about_to_finish (w : world) (same_thread : bool) (next : option (Z * uflags)) : world * out :=
+  if same_thread then (w, quiet)
+  else if atf_cb (cfg w) then
+    match next with
+    | Some (u, fl) => let '(w', o) := set_uri w u fl in (w', mkOut (Ok RNone) [] (CCallAtf :: o_cmds o))
+    | None => (w, mkOut (Ok RNone) [] [CCallAtf])
+    end
+  else (w, quiet).
+
+(* Audio._on_source_setup followed by utils.setup_proxy *)
+Definition on_source_setup (w : world) (has_factory has_is_live has_proxy_prop proxy_host : bool) : world * out :=
+  if negb has_factory then (w, mkOut (Raise AudioException) [] [])
+  else
+    (w, mkOut (Ok RNone) []
+              ((if src_cb (cfg w) then [CCallSource] else [])
+               ++ (if live (cfg w) && has_is_live then [CSetLive] else [])
+               ++ (if has_proxy_prop && proxy_host then [CProxy] else []))).
 
 Definition step (w : world) (i : input) : world * out :=
   match i with
@@ -268,17 +322,21 @@ Definition step (w : world) (i : input) : world * out :=
   | Eos => (with_tags w [], mkOut (Ok RNone) [EvEos] [])
   | Error =>                                       (* on_error: self._audio.stop_playback() *)
       let '(w', o) := set_state w NULL true in (w', mkOut (Ok RNone) [] (o_cmds o))
-  | Other => (w, quiet)
+  | Warning | AsyncDone | Element _ | Other => (w, quiet)
   | Segment pos => (w, mkOut (Ok RNone) [EvPosition (pos / MSECOND)] [])
   | PrepareChange ok => set_state w READY ok
-  | SetUri u dl =>
-      (mkW (st w) (target w) (buffering w) (tags w) (Some []) (Some u),
-       mkOut (Ok RNone) [] [CFlags (if dl then FLAG_AUDIO + FLAG_DOWNLOAD else FLAG_AUDIO); CUri u])
+  | SetUri u fl => set_uri w u fl
   | Start ok => set_state w PLAYING ok
   | Pause ok => set_state w PAUSED ok
   | Stop ok => set_state w NULL ok
   | SetPosition ms ok => (w, mkOut (Ok (RBool ok)) [] [CSeek (ms * MSECOND)])
   | GetCurrentTags => (w, mkOut (Ok (RTags (tags w))) [] [])
+  | GetPosition ok pos =>                          (* utils.clocktime_to_millisecond; 0 on failure *)
+      (w, mkOut (Ok (RPos (if ok then pos / MSECOND else 0))) [] [])
+  | SetAtfCallback b => (with_cfg w (mkA (live (cfg w)) b (src_cb (cfg w))), quiet)
+  | SetSourceCallback b => (with_cfg w (mkA (live (cfg w)) (atf_cb (cfg w)) b), quiet)
+  | AboutToFinish same next => on_about_to_finish w same next
+  | SourceSetup f l p h => on_source_setup w f l p h
   end.
 
 (* ---------------------------------------------------------------- runs *)
